@@ -436,6 +436,10 @@ func mutate(input []byte, rng *rand.Rand) ([]byte, string) {
 	}
 	b := append([]byte{}, input...)
 	i := rng.Intn(len(b))
+	if rng.Intn(6) == 0 { // a control character the language does or does not count as white space
+		b[i] = []byte{'\f', '\v', '\r', '\t', 0x7f}[rng.Intn(5)]
+		return b, "ctrl"
+	}
 	switch rng.Intn(4) {
 	case 0:
 		return b[:i], "truncate"
